@@ -206,5 +206,10 @@ def replay(ob):
 
     from ujvc.z3env import REPO_SRC
 
-    p = subprocess.run(["/venv/bin/python", "-c", SCRIPT], env=dict(os.environ, PYTHONPATH=REPO_SRC), capture_output=True, text=True, timeout=900)
-    return {"reproduced": p.returncode == 1, "detail": (p.stdout[-2500:] + p.stderr[-1500:]), "script": SCRIPT}
+    from ujvc.units import run_native
+
+    reps = int(os.environ.setdefault("UJVC_REPLAY_REPS", "2"))      # quick unit: 1, thorough unit: 6, as a replay: 2
+    limit = 60 + 60 * reps
+    r = run_native(SCRIPT, limit)
+    # a run that never returns is itself the finding (C07): the script has a 15 s watchdog per case, so not finishing at all means even that was blocked
+    return {"reproduced": r["rc"] == 1 or r["timed_out"], "detail": r["out"], "script": SCRIPT, "timed_out": r["timed_out"], "rc": r["rc"]}
